@@ -4,7 +4,8 @@
     def run(ctx):
         bpfdir = verif_bpf.setup(ctx)                      # bin/setup-bpf for ctx.repo, exports VERIF_BPF_DIR
         rc = verif.standard_check(ctx, SPEC)
-        return verif_bpf.post(ctx, rc, bpfdir, ["qos_ratelimit"])
+        asan = None if ctx.replay else verif_bpf.asan_run(ctx, SPEC, "VERIF_C19_ASAN")   # optional sanitizer pass
+        return verif_bpf.post(ctx, rc, bpfdir, ["qos_ratelimit"], asan)
 """
 import glob, json, os
 import verif
@@ -22,7 +23,29 @@ def setup(ctx):
     return bpfdir
 
 
-def post(ctx, rc, bpfdir, objects):
+def asan_run(ctx, spec, envname):
+    """Second pass of the driver with the ASan/UBSan build of the native runner (no Coq evaluation: the
+    point is that no sanitizer report kills the runner and kernel/native still agree). Returns a dict."""
+    binp = os.path.join(ctx.work, "bin", spec["driver"])
+    if not os.path.exists(binp):
+        return {"asan_pass": None}
+    outdir = os.path.join(ctx.work, "asan")
+    args = [binp, "-seed", str(ctx.seed + 17), "-tier", "quick", "-out", outdir]
+    corpus = os.path.join(verif.VERIF, "corpus", ctx.pid)
+    if os.path.isdir(corpus):
+        args += ["-corpus", corpus]
+    rc, out = verif.sh(args, cwd=ctx.work, timeout=900, env={envname: "1"})
+    res = {"asan_pass": rc == 0, "asan_native_runs": 0, "asan_kernel_native_disagree": 0}
+    if rc != 0:
+        res["asan_log"] = out[-1500:]
+    for mf in glob.glob(os.path.join(outdir, "*.meta.json")):
+        m = json.load(open(mf))
+        res["asan_native_runs"] = max(res["asan_native_runs"], m.get("native_runs", 0))
+        res["asan_kernel_native_disagree"] = max(res["asan_kernel_native_disagree"], m.get("kernel_native_disagree", 0))
+    return res
+
+
+def post(ctx, rc, bpfdir, objects, asan=None):
     """Fold the drivers' stream metas (keys written through vh.Emit's extra map) into evidence:
     kernel_bpf, verifier_ok, run counters.  A disagreement between the kernel test-run and the native run
     of the same frame on the same map contents is a broken correspondence -> VIOLATION."""
@@ -42,6 +65,15 @@ def post(ctx, rc, bpfdir, objects):
     agg["bpf_object_dir"] = bpfdir
     agg["bpf_build_ok"] = all(os.path.exists(os.path.join(bpfdir, o + ".o")) and os.path.exists(os.path.join(bpfdir, o + ".native"))
                               for o in objects)
+    if asan:
+        agg.update({k: v for k, v in asan.items() if k != "asan_log"})
+        if asan.get("asan_pass") is False or asan.get("asan_kernel_native_disagree"):
+            rp = verif.write_replay(ctx, "%d-asan" % ctx.seed, {
+                "property": ctx.pid, "kind": "broken-obligation",
+                "no_longer_checks": ["corr:native runner under ASan/UBSan (sanitizer report or kernel/native disagreement)"],
+                "log": asan.get("asan_log", "")})
+            print("VIOLATION property=%s replay=%s no-failing-input-found" % (ctx.pid, rp))
+            rc = 1
     if agg["kernel_native_disagree"]:
         rp = verif.write_replay(ctx, "%d-kernel-native" % ctx.seed, {
             "property": ctx.pid, "kind": "broken-obligation",
